@@ -12,6 +12,7 @@ import Cerberus.Model.Normalize
 import Cerberus.Model.Api
 import Cerberus.Model.Schema
 import Cerberus.Model.Cache
+import Cerberus.Model.Heap
 import Cerberus.Extracted
 import Cerberus.Model.RefTables
 open Lean Cerberus Cerberus.Codec
@@ -404,6 +405,45 @@ def portHkey (j : Json) : Except String Json := do
   let b ← valOfJson (← j.getObjVal? "b")
   pure (Json.bool (Cache.sameKey a b))
 
+/-! ### port `alias`: normalization on the heap -/
+
+partial def sharedPaths (h : Heap) (base : Nat) (r : Ref) (path : List Key) : List (List Key × Bool) :=
+  match h.get r with
+  | .leaf _ => []
+  | .seq _ rs =>
+    (path, decide (r < base)) ::
+      ((List.range rs.length).zip rs).flatMap (fun p => sharedPaths h base p.2 (path ++ [Key.i (Int.ofNat p.1)]))
+  | .dict es => (path, decide (r < base)) :: es.flatMap (fun kr => sharedPaths h base kr.2 (path ++ [kr.1]))
+
+def cellSame : Cell → Cell → Bool
+  | .leaf a, .leaf b => Val.pyEq a b && a.ctor == b.ctor
+  | .seq t a, .seq u b => t == u && a == b
+  | .dict a, .dict b => a.length == b.length && (a.zip b).all (fun p => p.1.1 == p.2.1 && p.1.2 == p.2.2)
+  | _, _ => false
+
+def portAlias (j : Json) : Except String Json := do
+  let env ← envOfJson j
+  let cfg ← cfgOfJson j
+  let schema ← valOfJson (← j.getObjVal? "schema")
+  let doc ← valOfJson (← j.getObjVal? "doc")
+  let fuel := (j.getObjVal? "fuel").toOption.bind (·.getNat?.toOption) |>.getD 40
+  let ctx : Ctx := { cfg := cfg }
+  let (h0, root) := (Heap.mk []).allocVal doc
+  let base := h0.size
+  match hnormalize env fuel ctx schema h0 root with
+  | .ok (h1, res, errs) =>
+    let unchanged := (List.range base).all (fun r => cellSame (h0.get r) (h1.get r))
+    let shared := sharedPaths h1 base res []
+    pure (Json.mkObj [
+      ("ok", errsToJson errs), ("doc", valToJson (h1.reify 64 res)),
+      ("unchanged", Json.bool unchanged), ("fresh", Json.bool (decide (base ≤ res))),
+      ("input", valToJson (h1.reify 64 root)),
+      ("shared", Json.arr (shared.map (fun p => Json.arr #[keysToJson p.1, Json.bool p.2])).toArray)])
+  | .error (.py t s') => pure (Json.mkObj [("raised", Json.arr #[Json.str t, Json.str s'])])
+  | .error .schemaRuleType => pure (Json.mkObj [("raised", Json.arr #[Json.str "_SchemaRuleTypeError", Json.str ""])])
+  | .error .fuel => pure (Json.str "fuel")
+  | .error (.oracle w) => pure (Json.mkObj [("need", Json.str w)])
+
 def handle (line : String) : Json :=
   match Json.parse line with
   | .error e => Json.mkObj [("error", Json.str s!"parse: {e}")]
@@ -422,6 +462,7 @@ def handle (line : String) : Json :=
       | "accept" => portAccept j
       | "entries" => portEntries j
       | "hkey" => portHkey j
+      | "alias" => portAlias j
       | "ping" => pure (Json.str "pong")
       | _ => throw s!"bad-op {port}"
     match r with
